@@ -99,6 +99,23 @@ CHECKS += [
     ),
 ]
 
+CHECKS += [
+    dict(
+        id="C18",
+        text="Explicit exploration of EVERY history of <= 2 (thorough 3) events (plus a depth-3 slice in quick) over shared Formula objects, "
+             "shared not-yet-materialized ModelSpec objects, two frames (one with nulls and a non-unique index) and every spec produced so "
+             "far: builds through three entry points, reuse, update(), pickle, subset, differentiate, required_variables.  After every "
+             "event the inputs and formulas must have their initial digests, the result must equal the same call in a fresh world, every "
+             "spec obtained so far must keep its state digest and finally behave like its pickled snapshot.  The one seed-dependent input "
+             "(iteration order of the pooled factor set) is owned through a harness-side seam and ALL permutations are enumerated; "
+             "fresh interpreters under several PYTHONHASHSEED values cross-check the seam.",
+        design_ref="DESIGN.md section 3 C18",
+        note="2^32 hash seeds cannot be enumerated; the claim is that the seed reaches results only through the enumerated factor order "
+             "(validated by separate-process runs). Bit-identity is decided on canonical digests (mc/canon.py).",
+        bfs=True,
+    ),
+]
+
 ALL = ["C%02d" % i for i in range(1, 21)]
 _reason = "check not built yet in this revision (work in progress; see DESIGN.md section 3 for the planned bounded-exhaustive check)"
 NOT_APPLICABLE = [dict(property_id=i, reason=_reason) for i in ALL if i not in {c["id"] for c in CHECKS}]
